@@ -277,8 +277,25 @@ class EqObligation(Obligation):
         return res
 
     def _run(self, res, seed):
-        with LineCov() as lc0:              # constructors / factory functions of /repo run while the scenario is built
-            b = self.build()
+        try:
+            with LineCov() as lc0:              # constructors / factory functions of /repo run while the scenario is built
+                b = self.build()
+        except JI.Unsupported:
+            raise
+        except Exception as e:
+            # the scenario is built with concrete, admissible data (as users build their objects, outside any trace): a
+            # constructor of /repo that raises on it violates the contract's "for all configurations" natively
+            if _from_checker(e):
+                raise
+            msg = "".join(traceback.format_exception_only(type(e), e)).strip()
+            where = traceback.extract_tb(e.__traceback__)[-1]
+            res["status"] = "violated"
+            res["failure"] = "raises"
+            res["detail"] = (f"building the scenario (constructing the objects of the real code with admissible concrete data) raises: {msg[:400]} "
+                             f"[{where.filename}:{where.lineno}]")
+            res["replay"] = {"obligation": self.name, "native_disagrees": True, "native": "raises " + msg[:300],
+                             "expected": "the object is constructed", "inputs": "the concrete stand-in data of the scenario (see the obligation's contract)"}
+            return
         _merge_lines(res, lc0.lines)
         fn, inputs, spec = b["fn"], b["inputs"], b["spec"]
         res["functions"] = list(b.get("functions", self.functions))
